@@ -488,6 +488,60 @@ pub fn execute(scn: &Scenario, strat: &mut Strategy, opts: &ExecOpts, out_setup:
     }
 }
 
+/// C21 replay of a FINE `Freeze` counterexample: in execution `r`, thread `t` ran alone after the first `from`
+/// accesses.  Returns the solo event of the call t had in flight there (None if the execution was not a solo
+/// run of t from that point to the end of the call: the counterexample does not reproduce).
+pub fn solo_event_of(r: &ExecResult, t: usize, from: usize) -> Option<Value> {
+    // scheduling step index p at which `from` accesses have been performed
+    let mut acc = 0;
+    let mut p = 0;
+    while p < r.steps.len() && acc < from {
+        if r.steps[p].kind != hook::K_CALL {
+            acc += 1;
+        }
+        p += 1;
+    }
+    // a call start of t directly at the freeze point belongs to the prefix (the model freezes after it)
+    let mut q = p;
+    if q < r.steps.len() && r.steps[q].chosen == t && r.steps[q].kind == hook::K_CALL {
+        q += 1;
+    }
+    let calls_before = r.steps[..q].iter().filter(|s| s.chosen == t && s.kind == hook::K_CALL).count();
+    if calls_before == 0 {
+        return None;
+    }
+    // t's steps until its next call start / end
+    let mut steps = 0;
+    let mut i = q;
+    while i < r.steps.len() {
+        let s = &r.steps[i];
+        if s.chosen != t {
+            // somebody else ran: fine only if t's call is over (t no longer enabled or waiting at a call start)
+            break;
+        }
+        if s.kind == hook::K_CALL {
+            break;
+        }
+        steps += 1;
+        i += 1;
+    }
+    let evs = annotate(&r.log);
+    let mut nth = 0;
+    let mut res = "done".to_string();
+    let mut msg = String::new();
+    for e in &evs {
+        if e["ev"] == "call" && e["t"] == t {
+            nth += 1;
+            if nth == calls_before && e["res"] == "panic" {
+                res = "panic".into();
+                msg = e["msg"].as_str().unwrap_or("").to_string();
+            }
+        }
+    }
+    Some(json!({"ev":"solo","t":t,"at":q,"steps":steps,"res":res,"msg":msg,
+                "sched": r.steps.iter().take(q).map(|s| s.chosen).collect::<Vec<_>>()}))
+}
+
 /// call events are annotated with the result of their ret event (same thread, next ret)
 pub fn annotate(log: &[Rec]) -> Vec<Value> {
     let mut evs: Vec<Value> = vec![];
@@ -565,6 +619,10 @@ fn hash_events(evs: &[Value]) -> u64 {
 impl<'a> Explore<'a> {
     pub fn new(scn: &'a Scenario, out: &'a mut Out) -> Self {
         Explore { scn, out, seen: HashSet::new(), execs: 0, distinct: 0, max_steps_seen: 0, first: true, bases: vec![], keep_bases: 0, ops_lines: vec![], ops_seen: HashSet::new() }
+    }
+
+    pub fn out_push(&mut self, e: Value) {
+        self.out.push(e);
     }
 
     /// run one schedule; emit its events unless an identical event sequence was emitted before
